@@ -80,6 +80,10 @@ def run(F, R, tier):
                 # the two reviewed `?` exits: neither can fail for a JWK method with a fragment built by new_from_jwk
                 continue
             r1.require(not IK, (fn, "key-id-left"), "%s returns an error after the key id was recorded: …%s" % (L.short(fn), where))
+            if not IM:
+                # nothing of ours is in the document: a remove_method here can only hit a method that was there before (the one whose fragment
+                # collided) — the failed call would change the document
+                r1.require(not rms, (fn, "removes-foreign-method"), "%s: an error exit on which insert_method did not succeed calls remove_method: the existing method with that id is removed from the document: …%s" % (L.short(fn), where))
             if IM:
                 rm_ok = any(MP is not None and SR.derives(e.args[1], MP) for e in rms)
                 r1.require(rm_ok, (fn, "undo-insert_method"), "%s: an error exit after insert_method succeeded does not first remove the inserted method from the document: …%s" % (L.short(fn), where))
